@@ -349,6 +349,7 @@ impl Agent {
                     .unwrap_or_default();
                 let mut kinds = Vec::new();
                 let mut data_ok = true;
+                let mut region_bad: Option<String> = None;
                 for (i, s) in m.slots.into_iter().enumerate() {
                     // the id the model gives to the handle in this position
                     let nh = want.get(i).map(|w| geti(w, "h")).unwrap_or(0);
@@ -364,7 +365,21 @@ impl Agent {
                         Slot::BS(s) => ("S", Some(Handle::BS(s))),
                         Slot::R(r) => ("R", Some(Handle::R(r))),
                         Slot::BR(r) => ("R", Some(Handle::BR(r))),
-                        Slot::M(r) => ("M", Some(Handle::M(r))),
+                        Slot::M(r) => {
+                            // the region must hold the bytes it was created with, whichever position it travelled in
+                            if let Some(w) = want.get(i) {
+                                if gets(w, "k") == "M" && w.get("len").is_some() {
+                                    let n = region_len(geti(w, "len"));
+                                    let tok = geti(w, "tok") as u64;
+                                    let expect = if tok % 2 == 0 { payload(tok, n) } else { vec![(tok * 37 + 11) as u8; n] };
+                                    let got: &[u8] = &r;
+                                    if got != &expect[..] {
+                                        region_bad = Some(format!("position {}: {} bytes received, {} created", i, got.len(), n));
+                                    }
+                                }
+                            }
+                            ("M", Some(Handle::M(r)))
+                        },
                     };
                     kinds.push(json!({"k": k, "h": nh}));
                     if let Some(hd) = hd {
@@ -375,7 +390,7 @@ impl Agent {
                     }
                 }
                 json!({"res": "msg", "tag": m.tag, "big": big, "slots": kinds,
-                       "intact": intact && data_ok})
+                       "intact": intact && data_ok, "region_bad": region_bad})
             },
         }
     }
@@ -418,6 +433,9 @@ pub fn mismatch(op: &Value, obs: &Value) -> Option<String> {
                 }
                 if obs.get("intact") != Some(&json!(true)) {
                     return Some("received message has altered payload".into());
+                }
+                if let Some(w) = obs.get("region_bad").and_then(|x| x.as_str()) {
+                    return Some(format!("a received region does not hold the bytes it was created with ({})", w));
                 }
                 if op.get("big") != obs.get("big") {
                     return Some("received message has a different size class".into());
